@@ -292,4 +292,126 @@ def run(chk, prog):
              'stale parked copy would overwrite the live flow in every later save.')
     from rules.c10 import check_load_parks_no_current_flow
     check_load_parks_no_current_flow(chk, prog, tr, RF_)
+    key_field_pairing(chk, prog, tr)
 
+
+
+# ---------------------------------------------------------------------------------------------------------------
+def _writer_map(prog, tr, lt, fn):
+    from analysis.tables import const_strings_of_operand
+    out = {}
+    for g in prog.with_closures(fn):
+        for bb, t in g.calls():
+            if callee_short(t) == 'Map::insert' and len(t['args']) >= 3:
+                ks = const_strings_of_operand(g, t['args'][1], tr)
+                fs = {a[6:] for a in lt.prov(g, t['args'][2]) if a.startswith('field:')
+                      and not a.startswith(('field:Option', 'field:Result', 'field:ControlFlow'))}
+                for k in ks:
+                    out.setdefault(k, set()).update(fs)
+    return out
+
+
+def _keys_behind(prog, tr, fn, op, depth=0, seen=None):
+    """JSON keys whose looked-up value an operand derives from (`obj.get("key")`, `obj["key"]`)."""
+    from analysis.defuse import du
+    from analysis.tables import const_strings_of_operand
+    seen = seen if seen is not None else set()
+    out = set()
+    if op.get('k') not in ('copy', 'move') or depth > 25:
+        return out
+    l = op['pl']['l']
+    if l in seen:
+        return out
+    seen.add(l)
+    for df in du(fn).defs.get(l, []):
+        if df['kind'] in ('assign', 'partial'):
+            rv = df['rv']
+            for k in ('op', 'a', 'b'):
+                o = rv.get(k)
+                if isinstance(o, dict):
+                    out |= _keys_behind(prog, tr, fn, o, depth + 1, seen)
+            for o in rv.get('ops', []):
+                out |= _keys_behind(prog, tr, fn, o, depth + 1, seen)
+            if 'pl' in rv:
+                out |= _keys_behind(prog, tr, fn, {'k': 'copy', 'pl': rv['pl']}, depth + 1, seen)
+        elif df['kind'] in ('call', 'partial_call'):
+            t = df['term']
+            nm = callee_short(t).rsplit('::', 1)[-1]
+            if nm in ('get', 'index', 'get_mut', 'remove') and len(t['args']) >= 2:
+                ks = set(const_strings_of_operand(fn, t['args'][1], tr))
+                if ks:
+                    out |= ks
+                    continue
+            for a in (t['args'] if nm in ('from_json', 'new') else t['args'][:1]):
+                out |= _keys_behind(prog, tr, fn, a, depth + 1, seen)
+    return out
+
+
+def _ctor_param_fields(prog, tr, g):
+    out = {}
+    for bb, si, s in g.stmts():
+        if s['k'] == 'assign' and s['rv']['k'] == 'agg' and s['rv'].get('ak') == 'adt' and s['rv'].get('fields'):
+            T = tyname(s['rv']['adt'])
+            for n, o in zip(s['rv']['fields'], s['rv']['ops']):
+                for a in tr.prov(g, o):
+                    if a.startswith('arg:'):
+                        out.setdefault(int(a[4:]), set()).add('%s::%s' % (T, n))
+    return out
+
+
+def _reader_map(prog, tr, fn):
+    out = {}
+    for g in prog.with_closures(fn):
+        for bb, si, s in g.stmts():
+            if s['k'] == 'assign' and s['pl'].get('p') and s['pl']['p'][-1]['k'] == 'field' and 'adt' in s['pl']['p'][-1]:
+                f = '%s::%s' % (tyname(s['pl']['p'][-1]['adt']), s['pl']['p'][-1]['n'])
+                rv = s['rv']
+                ops = [rv.get('op')] if rv['k'] in ('use', 'cast') else rv.get('ops', [])
+                for o in ops:
+                    if isinstance(o, dict):
+                        for k in _keys_behind(prog, tr, g, o):
+                            out.setdefault(k, set()).add(f)
+        for bb, t in g.calls():
+            h = prog.fns.get(callee(t))
+            if h is None or h.crate != 'bladeink':
+                continue
+            pf = _ctor_param_fields(prog, tr, h)
+            if not pf:
+                continue
+            for i, a in enumerate(t['args']):
+                fs = pf.get(i + 1)
+                if fs:
+                    for k in _keys_behind(prog, tr, g, a):
+                        out.setdefault(k, set()).update(fs)
+    return out
+
+
+PAIRS = (('StoryState::write_json', 'StoryState::load_json_obj'), ('Thread::write_json', 'Thread::from_json'),
+         ('CallStack::write_json', 'CallStack::load_json'), ('json_write::write_choice', 'json_read::jobject_to_choice'))
+GENERIC_FIELDS = ('Option::', 'Result::', 'Thread::callstack', 'StoryState::current_flow')
+
+
+def key_field_pairing(chk, prog, tr):
+    RP = 'C02.key-field-pairing'
+    chk.rule(RP, 'For every save key whose written value can be traced to a field and whose read value can be traced to a '
+             'field (assignment, or parameter of the constructor that initialises it), the two are the same field: the '
+             'writer stores field f under key k and the reader puts k back into f. Swapping two keys on one side keeps the '
+             'key sets, the field sets and every type intact.')
+    lt = Tracer(prog, transparent=lambda cs: True, use_summaries=False)
+    n = 0
+    for wn, rn in PAIRS:
+        wf, rf = prog.fn(wn), prog.fn(rn)
+        if not (chk.anchor(RP, wn, wf) and chk.anchor(RP, rn, rf)):
+            continue
+        w, r = _writer_map(prog, tr, lt, wf), _reader_map(prog, tr, rf)
+        for k in sorted(set(w) & set(r)):
+            fw = {f for f in w[k] if not f.startswith(GENERIC_FIELDS)}
+            fr = {f for f in r[k] if not f.startswith(GENERIC_FIELDS)}
+            if not fw or not fr:
+                continue
+            n += 1
+            chk.decide(RP, chk.key(RP, wn.split('::')[0], k), bool(fw & fr),
+                       'written from and read into %s' % sorted(fw & fr),
+                       'save key "%s" is written from %s but read back into %s: the loaded story has the two values '
+                       'exchanged / misplaced' % (k, sorted(fw), sorted(fr)), rf.loc(0))
+    chk.floor(RP, 'save keys paired field-to-field', n, 14)
